@@ -16,7 +16,7 @@ package query
 //@   assume len(text) <= 1<<48
 //@   modifies *
 //@   at call prepToken#2 assert len(arg0) == len(text) - start
-//@   loop 0 invariant start >= -1 && (start >= 0 ==> start <= pos) && pos >= 0 && (pos < rangepos() || (pos == 0 && rangepos() == 0)) && rangepos() >= 0 && rangepos() <= len(text) && (rangepos() == 0 ==> start == -1)
+//@   loop 0 invariant start >= -1 && (start >= 0 ==> start < rangepos()) && rangepos() >= 0 && rangepos() <= len(text)
 
 // token access of the parser stays inside the token list
 // (the position only moves forward from 0, and back by one after a where clause that consumed at least one token)
